@@ -194,3 +194,44 @@ theorem foldl_bor (l : List Nat) (f : Nat → Nat) (r0 : Nat) :
     rfl
 
 end Tls.Py
+
+namespace Tls.Py
+open Tls Tls.CT
+
+theorem forIn_range0 {σ : Type} (b : Nat) (init : σ) (body : Int → σ → Option σ) (g : Nat → σ → σ)
+    (h : ∀ k st, k < b → body (k : Int) st = some (g k st)) :
+    forIn (range 0 (b : Int)) init body = some ((List.range b).foldl (fun st k => g k st) init) := by
+  have := forIn_range 0 b init body g (fun k st _ hk => h k st hk)
+  rw [List.range_eq_range']
+  simpa using this
+
+theorem orFold_cons (x : Nat) (xs : List Nat) (f : Nat → Nat) :
+    orFold (x :: xs) f = f x ||| orFold xs f := by
+  have := foldl_or_init xs f (0 ||| f x)
+  rw [Nat.zero_or] at this
+  rw [← this]
+  simp only [orFold, List.foldl_cons, Nat.zero_or]
+
+/-- outer loop with a (mask, result) state whose body runs an inner `result |= …` loop -/
+theorem foldl_pair_fold_bor (l l2 : List Nat) (mk : Nat → Int) (f : Nat → Nat → Nat) (m0 : Int) (r0 : Nat) :
+    (l.foldl (fun (s : Int × Int) k => (mk k, l2.foldl (fun (r : Int) j => bor r (f k j : Int)) s.2))
+        (m0, (r0 : Int))).2
+      = ((r0 ||| orFold l fun k => orFold l2 (f k) : Nat) : Int) := by
+  induction l generalizing m0 r0 with
+  | nil => simp [orFold]
+  | cons x xs ih =>
+    simp only [List.foldl_cons]
+    rw [foldl_bor, ih, orFold_cons, Nat.or_assoc]
+
+theorem bytearrayOfInts_shr8 (n : Nat) (h : n < 65536) :
+    bytearrayOfInts [shr (n : Int) 8] = some [UInt8.ofNat (n >>> 8)] := by
+  rw [shr_nat, bytearrayOfInts_one]
+  rw [Nat.shiftRight_eq_div_pow]; omega
+
+theorem bytearrayOfInts_and255 (n : Nat) :
+    bytearrayOfInts [band (n : Int) 255] = some [UInt8.ofNat (n &&& 255)] := by
+  rw [band_nat_255, bytearrayOfInts_one]
+  have := @Nat.and_le_right n 255
+  omega
+
+end Tls.Py
